@@ -190,6 +190,11 @@ pub fn run(env: &Env) -> PropRun {
         };
         parts.push(run_part(env, "enum-pairs", ptotal, true, "4x3 and 3x2: every cursor cell incl. wrap-pending x 3 pens x 3 content modes x insert on/off x all ordered pairs of the editing commands", &pmake, &j));
     }
+    {
+        use gen::*;
+        let gl = |src: &mut Src, _i: usize| large_case(src, true, &[(CAT_ERASE, 8), (CAT_EDIT, 10), (CAT_TEXT, 4), (CAT_CUP, 5), (CAT_REL, 3), (CAT_SGR, 3), (CAT_DECALN, 1)], 12);
+        parts.push(random_part(env, "large-screens", env.tier.scale(500, 40), &gl, &j));
+    }
     parts.push(random_part(env, "random-histories", env.tier.scale(60_000, 40), &gen_random, &j));
     PropRun {
         parts,
